@@ -3,8 +3,8 @@
 Engine: resolvesim.  Tier A: real dns.resolver.Resolver / dns.asyncresolver.Resolver
 (_Resolution, BaseResolver, Answer, QueryMessage.resolve_chaining, caches) over scripted
 dns.nameserver.Nameserver subclasses on a virtual clock; every script is executed by the
-sync and the async resolver and by a reference resolution model written from the
-documentation; the three traces must be equal.  Tier B: the same resolvers over real
+sync resolver, the async resolver on asyncio and on trio, and by a reference resolution model
+written from the documentation; the four traces must be equal.  Tier B: the same resolvers over real
 Do53Nameserver objects and the simulated network of netsim (datagram loss, garbage,
 spoofing, TC->TCP, refused TCP, EOF, slow replies); sync and async traces must be equal
 and the direct invariants must hold.
@@ -20,6 +20,7 @@ from simkit.vtime import VT
 PROP = "C16"
 ENGINE = "resolvesim"
 LEVEL = "exploration"
+HANG_WATCHDOG = True  # (no simulator threads: a run that does not come back is a violation, see simkit.runner.run_guarded)
 TIERS = {
     "quick": {"runs": 40000, "budget_s": 75},
     "thorough": {"runs": 3000000, "budget_s": 1500},
@@ -39,9 +40,10 @@ COMPONENTS_REAL = [
     "dns.resolver._Resolution / BaseResolver / Resolver.resolve / Answer / Cache / LRUCache",
     "dns.asyncresolver.Resolver.resolve on a virtual-time asyncio loop (real dns._asyncio_backend.Backend.sleep)",
     "dns.message.QueryMessage.resolve_chaining, make_query, make_response",
-    "tier B: dns.nameserver.Do53Nameserver, dns.query / dns.asyncquery udp+tcp, dns._asyncio_backend",
+    "dns.asyncresolver.Resolver.resolve under the real trio run loop on a clock reading simulated time (real dns._trio_backend.Backend.sleep / cancel scopes)",
+    "tier B: dns.nameserver.Do53Nameserver, dns.query / dns.asyncquery udp+tcp, dns._asyncio_backend, dns._trio_backend",
 ]
-COMPONENTS_STUB = ["nameservers (scripted outcomes, tier A) / network and peers (tier B)", "time module (virtual clock)", "sockets/event loop (tier B)"]
+COMPONENTS_STUB = ["nameservers (scripted outcomes, tier A) / network and peers (tier B)", "time module (virtual clock)", "sockets/event loop selector/trio clock and trio.socket.socket (tier B)"]
 EXPECTED_PROBES = [
     "tc_then_tcp_retry",
     "truncation_over_tcp",
@@ -62,10 +64,13 @@ EXPECTED_PROBES = [
     "yxdomain",
     "no_answer",
     "tierB_runs",
+    "trio_backend_resolution",
 ]
 
 _d = None
 MAX_CHAIN = 16
+# (world name, async flavour): the sync resolver, the async resolver on asyncio, the async resolver on trio
+WORLDS = [("sync", False), ("async", True)]
 
 
 def setup():
@@ -89,6 +94,12 @@ def setup():
         mod.time = VT
     dns.query.socket_factory = netsim.fake_socket_factory
     dns.query._wait_for = netsim.pump
+    if netsim.have_trio():
+        import dns._trio_backend
+
+        netsim.install_trio_seam()
+        if ("trio", "trio") not in WORLDS:
+            WORLDS.append(("trio", "trio"))
     # message ids and record-order shuffles come from the run's PRNG
     dns.entropy.random_16 = lambda: _IDS.next()
     import dns.rdataset
@@ -404,7 +415,7 @@ def make_ns_class():
         async def async_query(self, request, timeout, source, source_port, max_size, backend, one_rr_per_rrset=False, ignore_trailing=False):
             o, (dt, res) = self._begin(request, timeout, max_size)
             if dt > 0:
-                await asyncio.sleep(dt)
+                await backend.sleep(dt)
             if "jump" in o:
                 VT.jump(o["jump"])
             if isinstance(res, BaseException):
@@ -484,12 +495,12 @@ def run_world(case, is_async):
         kw = dict(rdtype=res["rdtype"], rdclass=res.get("rdclass", "IN"), tcp=res["tcp"], raise_on_no_answer=res["raise_on_no_answer"], lifetime=res["lifetime"], search=res["search"])
         try:
             if is_async:
-                backend = dns.asyncbackend.get_backend("asyncio")
+                backend = dns.asyncbackend.get_backend("trio" if is_async == "trio" else "asyncio")
 
                 async def go():
                     return await r.resolve(res["qname"], backend=backend, **kw)
 
-                ans, exc = netsim.run_async(go)
+                ans, exc = (netsim.run_trio if is_async == "trio" else netsim.run_async)(go)
                 if exc is not None:
                     raise exc
             else:
@@ -891,10 +902,12 @@ def cfg_flags_text(case):
 def _run_a(case, res, log):
     model, probes, states = model_run(case)
     worlds = {}
-    for name, is_async in (("sync", False), ("async", True)):
+    for name, is_async in WORLDS:
         if case.get("world") not in (None, name):
             continue
         real, world = run_world(case, is_async)
+        if name == "trio":
+            res.probes.inc("trio_backend_resolution", len(real))
         worlds[name] = real
         if world.bad_flags:
             bi, bf = world.bad_flags[0]
@@ -904,10 +917,12 @@ def _run_a(case, res, log):
         res.sim_seconds += sum(r["end"] for r in real)
         for k in world.consumed:
             res.faults.inc("outcome_" + k)
-    if len(worlds) == 2 and worlds["sync"] != worlds["async"]:
-        for i, (a, b) in enumerate(zip(worlds["sync"], worlds["async"])):
-            if a != b:
-                raise Violation("C16:sync-async-differ", f"resolution {i}: sync {a['result']} end {a['end']} vs async {b['result']} end {b['end']}; traces equal: {a['trace'] == b['trace']}")
+    names = [n for n, _ in WORLDS if n in worlds]
+    for other in names[1:]:
+        if worlds[names[0]] != worlds[other]:
+            for i, (a, b) in enumerate(zip(worlds[names[0]], worlds[other])):
+                if a != b:
+                    raise Violation("C16:sync-async-differ", f"resolution {i}: {names[0]} {a['result']} end {a['end']} vs {other} {b['result']} end {b['end']}; traces equal: {a['trace'] == b['trace']}")
     for p in probes:
         res.probes.inc(p)
     for s in states:
@@ -1153,12 +1168,12 @@ def _run_b_world(case, is_async):
     r.rotate = False
     try:
         if is_async:
-            backend = dns.asyncbackend.get_backend("asyncio")
+            backend = dns.asyncbackend.get_backend("trio" if is_async == "trio" else "asyncio")
 
             async def go():
                 return await r.resolve(case["qname"], case["rdtype"], tcp=cfg["tcp"], backend=backend)
 
-            ans, exc = netsim.run_async(go, bnet)
+            ans, exc = (netsim.run_trio if is_async == "trio" else netsim.run_async)(go, bnet)
             if exc is not None:
                 raise exc
         else:
@@ -1176,11 +1191,13 @@ def _run_b_world(case, is_async):
 def _run_b(case, res, log):
     cfg = case["cfg"]
     outs = {}
-    for name, is_async in (("sync", False), ("async", True)):
+    for name, is_async in WORLDS:
         if case.get("world") not in (None, name):
             continue
         o = _run_b_world(case, is_async)
         outs[name] = o
+        if name == "trio":
+            res.probes.inc("trio_backend_resolution")
         tag = f"[{name}] tier B"
         if o["result"] == ("hang",):
             raise Violation("C16:no-termination", f"{tag}: resolution never terminates; trace {o['trace']}")
@@ -1222,11 +1239,14 @@ def _run_b(case, res, log):
         res.sim_seconds += o["end"]
         for ev in tr:
             res.faults.inc("net_" + ev[3])
-    if len(outs) == 2 and (outs["sync"]["trace"] != outs["async"]["trace"] or outs["sync"]["result"] != outs["async"]["result"] or abs(outs["sync"]["end"] - outs["async"]["end"]) > 1e-5):
-        raise Violation(
-            "C16:sync-async-differ",
-            f"tier B: sync {outs['sync']['result']} end {outs['sync']['end']} trace {outs['sync']['trace']} | async {outs['async']['result']} end {outs['async']['end']} trace {outs['async']['trace']}",
-        )
+    names = [n for n, _ in WORLDS if n in outs]
+    for other in names[1:]:
+        a, b = outs[names[0]], outs[other]
+        if a["trace"] != b["trace"] or a["result"] != b["result"] or abs(a["end"] - b["end"]) > 1e-5:
+            raise Violation(
+                "C16:sync-async-differ",
+                f"tier B: {names[0]} {a['result']} end {a['end']} trace {a['trace']} | {other} {b['result']} end {b['end']} trace {b['trace']}",
+            )
     any_out = next(iter(outs.values()))
     log.add("B", any_out["trace"], any_out["result"], any_out["end"])
     res.probes.inc("tierB_runs")
@@ -1256,7 +1276,7 @@ def run_case(case, keep_log=False):
 
 def shrink(case):
     if case.get("world") is None:
-        for w in ("sync", "async"):
+        for w, _ in WORLDS:
             c = copy.deepcopy(case)
             c["world"] = w
             yield c
